@@ -203,6 +203,8 @@ def cls_of(o):
             return str
         if o.__class__.__name__ == 'TrackList':
             return o.pycls
+        if o.__class__.__name__ == 'PyList':
+            return list           # a list display evaluated by the interpreter
     return type(o)
 
 
